@@ -182,7 +182,7 @@ def _decode_idna(domain: str) -> str:
     try:
         # Try decoding in one shot.
         return data.decode("idna")
-    except UnicodeDecodeError:
+    except UnicodeError:
         pass
 
     # Decode each part separately, leaving invalid parts as punycode.
@@ -191,7 +191,7 @@ def _decode_idna(domain: str) -> str:
     for part in data.split(b"."):
         try:
             parts.append(part.decode("idna"))
-        except UnicodeDecodeError:
+        except UnicodeError:
             parts.append(part.decode("ascii"))
 
     return ".".join(parts)
